@@ -697,7 +697,7 @@ fn async_rt() -> &'static tokio::runtime::Runtime {
 /// `decoys` requests and then the real one, pipelined on ONE connection to a real server (blocking
 /// `repe::Server` or `repe::AsyncServer`, options from `srv`); returns the response to the last.
 /// Socket trouble is reported as Err and never judged (only a response that arrives is compared).
-fn tcp_roundtrip(router: Router, frames: &[Vec<u8>], srv: u8) -> Result<Message, &'static str> {
+fn tcp_roundtrip(router: Router, frames: &[Vec<u8>], srv: u8) -> Result<Vec<Message>, &'static str> {
     use std::io::Write;
     let to = |bit: u8| if srv & bit != 0 { Some(std::time::Duration::from_secs(30)) } else { None };
     let addr = if srv & 8 == 0 {
@@ -725,11 +725,11 @@ fn tcp_roundtrip(router: Router, frames: &[Vec<u8>], srv: u8) -> Result<Message,
         stream.write_all(f).map_err(|_| "write")?;
     }
     stream.flush().ok();
-    let mut last = Err("read");
+    let mut all = Vec::new();
     for _ in frames {
-        last = Ok(repe::read_message(&mut stream).map_err(|_| "read")?);
+        all.push(repe::read_message(&mut stream).map_err(|_| "read")?);
     }
-    last
+    Ok(all)
 }
 
 /// Final response as the dispatch layer would send it (echo rule + error mapping), canonical text.
@@ -810,9 +810,9 @@ fn exec_twin(out: &mut Out, line: &str, w: &[&str]) -> (String, bool) {
         if t.len() == tpath.len() { t } else { format!("/{}", "y".repeat(tpath.len().saturating_sub(1))) }
     };
     let decoy_reqs: Vec<Message> = [
-        (b"{\"unterminated".to_vec(), 2u16, "/decoy/a"),
-        (serde_json::to_vec(&json!({"a": 5, "s": "d".repeat(9000)})).unwrap(), 2u16, tpath.as_str()),
         (b"xyz".to_vec(), 77u16, sibling.as_str()),
+        (serde_json::to_vec(&json!({"a": 5, "s": "d".repeat(9000)})).unwrap(), 2u16, tpath.as_str()),
+        (b"{\"unterminated".to_vec(), 2u16, "/decoy/a"),
     ]
     .iter()
     .take(decoys)
@@ -948,8 +948,16 @@ fn exec_twin(out: &mut Out, line: &str, w: &[&str]) -> (String, bool) {
                 frames.push(req.to_vec());
                 let which = if srv & 8 == 0 { "tcp_server" } else { "async_server" };
                 match tcp_roundtrip(wrapped.clone(), &frames, srv) {
-                    Ok(m) => {
+                    Ok(mut all) => {
                         out.count(&format!("twin.e2e.{}.ok", which));
+                        let m = all.pop().unwrap();
+                        // earlier responses on the connection: none of these handlers sets a query of its own, so each
+                        // must carry its own request's id and query (nothing left over from a neighbour)
+                        for (d, resp) in decoy_reqs.iter().zip(all.iter()) {
+                            if resp.header.id != d.header.id || resp.query != d.query {
+                                out.oracle_fail(&format!("router.twin.{}.{}.pipelined", kind, which), &format!("request id={} q={} on a shared connection was answered with id={} q={}", d.header.id, hex(&d.query), resp.header.id, hex(&resp.query)), &ops);
+                            }
+                        }
                         let got = norm(rid, &query, Ok(Ok(m)));
                         if got != r0 {
                             out.oracle_fail(&format!("router.twin.{}.{}", kind, which), &format!("the server (options {}, after {} requests on the connection) answered\n  {}\nbut plain.handle answered\n  {}", srv, decoys, got, r0), &ops);
